@@ -880,6 +880,14 @@ func checkGraphIdempotency(c *Ctx, r *Report, clause string) {
 		"re-adding an existing (from, to, kind) edge neither replaces the descriptor nor consumes an ordinal")
 	ruleGuarded(c, r, clause, addEdge, "ordinal-only-when-absent",
 		func(ins ssa.Instruction) bool {
+			// an ordinal is consumed by the helper, or - the helper inlined - by advancing the counter itself
+			if st, ok := ins.(*ssa.Store); ok {
+				if fa, ok := st.Addr.(*ssa.FieldAddr); ok {
+					if f := structFieldVar(fa.X.Type(), fa.Field); f != nil && f.Name() == "nextEdgeSeq" {
+						return true
+					}
+				}
+			}
 			cl, ok := ins.(ssa.CallInstruction)
 			return ok && strings.HasSuffix(calleeName(cl), ".getAndIncrementNextEdgeOrdinal")
 		},
